@@ -26,16 +26,31 @@ type connCase struct {
 
 // chunkConn: the client-side transport. Read returns one queued chunk per call.
 type chunkConn struct {
-	mu     sync.Mutex
-	q      [][]byte
-	w      bytes.Buffer
-	closed bool
+	mu      sync.Mutex
+	cond    *sync.Cond
+	q       [][]byte
+	w       bytes.Buffer
+	closed  bool
+	block   bool // an empty queue blocks the reader (parked-read mode) instead of failing
+	waiting int  // readers currently parked
 }
 
-func (c *chunkConn) push(b []byte) { c.mu.Lock(); c.q = append(c.q, b); c.mu.Unlock() }
+func (c *chunkConn) push(b []byte) {
+	c.mu.Lock()
+	c.q = append(c.q, b)
+	if c.cond != nil {
+		c.cond.Broadcast()
+	}
+	c.mu.Unlock()
+}
 func (c *chunkConn) Read(p []byte) (int, error) {
 	c.mu.Lock()
 	defer c.mu.Unlock()
+	for len(c.q) == 0 && c.block && !c.closed {
+		c.waiting++
+		c.cond.Wait()
+		c.waiting--
+	}
 	if len(c.q) == 0 {
 		return 0, net.ErrClosed
 	}
@@ -57,7 +72,16 @@ func (c *chunkConn) Write(p []byte) (int, error) {
 }
 func (c *chunkConn) written() []byte                    { c.mu.Lock(); defer c.mu.Unlock(); return bytes.Clone(c.w.Bytes()) }
 func (c *chunkConn) isClosed() bool                     { c.mu.Lock(); defer c.mu.Unlock(); return c.closed }
-func (c *chunkConn) Close() error                       { c.mu.Lock(); c.closed = true; c.mu.Unlock(); return nil }
+func (c *chunkConn) Close() error {
+	c.mu.Lock()
+	c.closed = true
+	if c.cond != nil {
+		c.cond.Broadcast()
+	}
+	c.mu.Unlock()
+	return nil
+}
+func (c *chunkConn) parked() bool { c.mu.Lock(); defer c.mu.Unlock(); return c.waiting > 0 }
 func (c *chunkConn) LocalAddr() net.Addr                { return &net.TCPAddr{} }
 func (c *chunkConn) RemoteAddr() net.Addr               { return &net.TCPAddr{} }
 func (c *chunkConn) SetDeadline(t time.Time) error      { return nil }
@@ -99,7 +123,9 @@ func sealedHello(outerExts, innerExts []aExt, enc aEnc, cid int, suite string, o
 	return mk(&aCt{Ok: ok, Kid: "k1", Enc: "e1", Suite: "s1", Info: "c1", Aad: aad, Pt: inner})
 }
 
-func replayConnCase(kr *keyring, c *connCase) (diff string) {
+// replayConnCase replays one history. parked: a Read that follows a Write in the history is already blocked in the
+// transport when the Write happens (a proxy with one goroutine per direction), the record arriving afterwards.
+func replayConnCase(kr *keyring, c *connCase, parked bool) (diff string) {
 	defer func() {
 		if r := recover(); r != nil {
 			diff = fmt.Sprint("panic: ", r)
@@ -120,6 +146,7 @@ func replayConnCase(kr *keyring, c *connCase) (diff string) {
 	}
 	ch1rec := handshakeRecord(s.helloBody(ch1, outerRandom, eo, "", -1))
 	tr := &chunkConn{}
+	tr.cond = sync.NewCond(&tr.mu)
 	tr.push(ch1rec)
 	conn, err := ech.NewConn(context.Background(), tr, ech.WithKeys(kr.serverKeys(keyNames)))
 	if err != nil {
@@ -191,17 +218,51 @@ func replayConnCase(kr *keyring, c *connCase) (diff string) {
 		hs := append([]byte{2, 0, 0, byte(len(b))}, b...)
 		return append(be16([]byte{22, 3, 3}, len(hs)), hs...)
 	}
+	type readRes struct {
+		n   int
+		err error
+	}
+	var pending chan readRes // a Read started before the preceding Write
+	tr.mu.Lock()
+	tr.block = parked
+	tr.mu.Unlock()
 	for i, step := range c.Hist {
 		dir, sym := step[0], step[1]
 		want := c.Outs[i]
+		if parked && dir == "w" && i+1 < len(c.Hist) && c.Hist[i+1][0] == "r" && pending == nil {
+			ch := make(chan readRes, 1)
+			go func() {
+				n, err := conn.Read(buf)
+				ch <- readRes{n, err}
+			}()
+			for k := 0; k < 2000 && !tr.parked(); k++ {
+				time.Sleep(50 * time.Microsecond)
+			}
+			if !tr.parked() {
+				return fmt.Sprintf("step %d: a Read with no client data available did not block in the transport", i+2)
+			}
+			pending = ch
+		}
 		if dir == "r" {
 			rec, ok := fixed[sym]
 			if !ok {
 				rec = mkCH2(sym)
 			}
-			tr.push(rec)
 			before := len(tr.written())
-			n, err := conn.Read(buf)
+			tr.push(rec)
+			var n int
+			var err error
+			if pending != nil {
+				select {
+				case r := <-pending:
+					n, err = r.n, r.err
+				case <-time.After(5 * time.Second):
+					return fmt.Sprintf("step %d read %s: the parked Read did not return after the record arrived", i+1, sym)
+				}
+				pending = nil
+			} else {
+				n, err = conn.Read(buf)
+			}
 			switch want[0] {
 			case "fwd":
 				if err != nil || !bytes.Equal(buf[:n], rec) {
@@ -258,6 +319,16 @@ func replayConnCase(kr *keyring, c *connCase) (diff string) {
 	return ""
 }
 
+// parkedMode: histories worth replaying with the reader already blocked: a backend write directly followed by a client record
+func parkedMode(c *connCase) bool {
+	for i := 0; i+1 < len(c.Hist); i++ {
+		if c.Hist[i][0] == "w" && c.Hist[i][1] == "HRR" && c.Hist[i+1][0] == "r" {
+			return true
+		}
+	}
+	return false
+}
+
 func TestEchConnHistories(t *testing.T) {
 	in, out := os.Getenv("VH_IN"), os.Getenv("VH_OUT")
 	if in == "" || out == "" {
@@ -281,7 +352,12 @@ func TestEchConnHistories(t *testing.T) {
 		go func(i int) {
 			defer wg.Done()
 			defer func() { <-sem }()
-			results[i] = replayConnCase(kr, &cases[i])
+			results[i] = replayConnCase(kr, &cases[i], false)
+			if results[i] == "" && parkedMode(&cases[i]) {
+				if d := replayConnCase(kr, &cases[i], true); d != "" {
+					results[i] = "(Read parked before the Write) " + d
+				}
+			}
 		}(i)
 	}
 	wg.Wait()
